@@ -177,6 +177,95 @@ theorem inv_iterNext (s s' : St) (h : Inv s) (hs : step .iterNext s = some s') :
         (by rw [← hs]) (by rw [← hs]) (by rw [← hs]) (by rw [← hs]) (by rw [← hs])
   · simp at hs
 
+theorem inv_dropNext (s s' : St) (h : Inv s) (hs : step .dropNext s = some s') : Inv s' := by
+  simp only [step] at hs
+  split at hs
+  · rename_i j hcur
+    obtain ⟨i1, i2, i3, i4, i5, i6, i7, i8, i9, i10, i11, i12⟩ := h
+    -- the iterator's chain starts with `j`
+    obtain ⟨rest, hiter⟩ : ∃ rest, s.iter = j :: rest := by
+      rw [hcur] at i2
+      cases hi : s.iter with
+      | nil => rw [hi] at i2; simp at i2
+      | cons a l => rw [hi] at i2; simp at i2; subst i2; exact ⟨l, rfl⟩
+    have hlink : s.next j = ofIx rest.head? ∧ Linked s.next rest := by rw [hiter] at i4; exact i4
+    have hnd : j ∉ s.stack ∧ j ∉ rest ∧ (s.stack ++ rest).Nodup := by
+      rw [hiter] at i5
+      have := List.nodup_append.mp i5
+      have h2 := List.nodup_cons.mp this.2.1
+      refine ⟨fun hm => this.2.2 j hm j List.mem_cons_self rfl, h2.1, ?_⟩
+      exact List.nodup_append.mpr ⟨this.1, h2.2, fun a ha b hb => this.2.2 a ha b (List.mem_cons_of_mem _ hb)⟩
+    -- what the swap reads is the link to the rest of the chain
+    have key : ∀ (cur' : Option Nat), cur' = rest.head? →
+        ∀ s1 : St, s1.n = s.n → s1.m = s.m → s1.next = upd s.next j .sleeping → s1.head = s.head → s1.wpc = s.wpc →
+          s1.wt = s.wt → s1.cur = cur' → s1.err = s.err → s1.stack = s.stack → s1.iter = s.iter.tail →
+          s1.need = upd s.need j false → Inv s1 := by
+      intro cur' hc s1 en em enext ehead ewpc ewt ecur eerr estack eiter eneed
+      have eiter' : s1.iter = rest := by rw [eiter, hiter]; rfl
+      have pf := pusher_same s s1 em ewt ewpc
+      refine ⟨by rw [ehead, estack]; exact i1, by rw [ecur, eiter', hc],
+        by rw [enext, estack]; exact linked_upd _ _ _ _ hnd.1 i3,
+        by rw [enext, eiter']; exact linked_upd _ _ _ _ hnd.2.1 hlink.2,
+        by rw [estack, eiter']; exact hnd.2.2, ?_, by rw [em, ewpc, ewt, en]; exact i7, ?_, ?_, ?_, ?_, by rw [eerr]; exact i12⟩
+      · rw [estack, eiter', en]
+        intro i hin
+        apply i6 i
+        rw [hiter]
+        simp only [List.mem_append, List.mem_cons] at hin ⊢
+        rcases hin with a | a
+        · exact Or.inl a
+        · exact Or.inr (Or.inr a)
+      · intro i hin hx
+        rw [en] at hin; rw [estack, eiter']
+        by_cases hij : i = j
+        · subst hij; rw [enext] at hx; simp at hx
+        · rw [enext] at hx; simp only [upd_other _ _ hij] at hx
+          rcases i8 i hin hx with a | a | ⟨w', a⟩
+          · exact Or.inl a
+          · rw [hiter] at a
+            simp only [List.mem_cons] at a
+            rcases a with a | a
+            · exact absurd a hij
+            · exact Or.inr (Or.inl a)
+          · exact Or.inr (Or.inr ⟨w', (pf w' i).mpr a⟩)
+      · intro w' i hp
+        have := i9 w' i ((pf w' i).mp hp)
+        have hij : i ≠ j := by intro e; subst e; exact this.2.1 (by rw [hiter]; exact List.mem_cons_self)
+        rw [estack, eiter', enext, ewpc]
+        refine ⟨this.1, fun hm => this.2.1 (by rw [hiter]; exact List.mem_cons_of_mem _ hm),
+          by simp only [upd_other _ _ hij]; exact this.2.2.1, ?_⟩
+        intro hh hpc'
+        simp only [upd_other _ _ hij]; exact this.2.2.2 hh hpc'
+      · intro w' w'' i a b
+        exact i10 w' w'' i ((pf w' i).mp a) ((pf w'' i).mp b)
+      · intro i hx
+        rw [eneed] at hx; rw [enext]
+        by_cases hij : i = j
+        · subst hij; simp at hx
+        · simp only [upd_other _ _ hij] at hx ⊢; exact i11 i hx
+    split at hs
+    · rename_i hsl
+      exact absurd hsl (by rw [hlink.1]; exact ofIx_ne_sleeping _)
+    · rename_i hem
+      simp only [Option.some.injEq] at hs
+      have hr : rest.head? = none := by
+        rw [hlink.1] at hem
+        cases hh : rest.head? with
+        | none => rfl
+        | some k => rw [hh] at hem; simp [ofIx] at hem
+      exact key none hr.symm s' (by rw [← hs]) (by rw [← hs]) (by rw [← hs]) (by rw [← hs]) (by rw [← hs]) (by rw [← hs])
+        (by rw [← hs]) (by rw [← hs]) (by rw [← hs]) (by rw [← hs]) (by rw [← hs])
+    · rename_i k hk
+      simp only [Option.some.injEq] at hs
+      have hr : rest.head? = some k := by
+        rw [hlink.1] at hk
+        cases hh : rest.head? with
+        | none => rw [hh] at hk; simp [ofIx] at hk
+        | some k' => rw [hh] at hk; simp [ofIx] at hk; rw [hk]
+      exact key (some k) hr.symm s' (by rw [← hs]) (by rw [← hs]) (by rw [← hs]) (by rw [← hs]) (by rw [← hs]) (by rw [← hs])
+        (by rw [← hs]) (by rw [← hs]) (by rw [← hs]) (by rw [← hs]) (by rw [← hs])
+  · simp at hs
+
 theorem inv_step (l : Label) (s s' : St) (h : Inv s) (hs : step l s = some s') : Inv s' := by
   cases l with
   | wBegin w i => exact inv_step_local _ s s' h hs trivial
@@ -188,6 +277,7 @@ theorem inv_step (l : Label) (s s' : St) (h : Inv s) (hs : step l s = some s') :
   | wFixNext w => exact inv_fixNext w s s' h hs
   | take c => exact inv_take c s s' h hs
   | iterNext => exact inv_iterNext s s' h hs
+  | dropNext => exact inv_dropNext s s' h hs
 
 theorem reach_inv {n m : Nat} {s : St} (h : Reach n m s) : Inv s := by
   induction h with
